@@ -226,10 +226,10 @@ pub fn intercept_write(
 
 /// Observation of a write that the normal path performed.
 #[inline]
-pub fn wrote(site: &'static str, offset: u64, data: &[u8], ok: bool) {
+pub fn wrote(site: &'static str, offset: u64, written: &[u8], ok: bool) {
     if let Some(handler) = current() {
-        if ok {
-            handler.wrote(site, offset, data);
+        if !written.is_empty() {
+            handler.wrote(site, offset, written);
         }
         handler.write_end(site, ok);
     }
